@@ -63,6 +63,14 @@ Step ==
             IF Rec.ntop > 1 /\ Rec.variant = 1
             THEN Stat("wignerangles-judged") /\ Clause("wigner-angles-are-the-euler-angles-of-the-wigner-rotation", Rec.diff_q <= Tol, <<Rec.suffix, Rec.diff_q>>)
             ELSE Stat("wignerangles-not-judged")
+       [] Rec.kind = "links" ->
+            \* the aligned amplitude is a chain of rotation matrices contracted with the amplitude symbol: every summation
+            \* index occurs in exactly two factors of every term (an index name used for two links makes the chain a trace)
+            Stat("links") /\ \A i \in DOMAIN Rec.links :
+                 \* (a spinless state has no rotation factor: its single-valued index occurs in the amplitude symbol only)
+                 Clause("summation-index-links-exactly-two-factors",
+                        \/ Rec.links[i].min_uses = 2 /\ Rec.links[i].max_uses = 2
+                        \/ Rec.links[i].n_values = 1 /\ Rec.links[i].min_uses \in {1, 2} /\ Rec.links[i].max_uses \in {1, 2}, Rec.links[i])
        [] Rec.kind = "relabel" ->
             \* relabel_edge_ids (every id shifted by one) commutes with formulate(): same intensity on the same events
             Stat("relabel") /\ Clause("relabelled-reaction-has-the-same-intensity", Rec.nan = 0 /\ Rec.reldiff_q <= Tol, <<Rec.reldiff_q, Rec.nan>>)
